@@ -857,8 +857,28 @@ impl Xot {
                 "Cannot replace document node".to_string(),
             ));
         }
-        // there should always be a parent as we're not document node
-        let parent = self.parent(replaced_node).unwrap();
+        // validate everything before the replaced node is destroyed, so that
+        // a refused replace leaves the tree as it was
+        if matches!(
+            self.value_type(replaced_node),
+            ValueType::Attribute | ValueType::Namespace
+        ) {
+            return Err(Error::InvalidOperation(
+                "Cannot replace attribute or namespace node".to_string(),
+            ));
+        }
+        let parent = self.parent(replaced_node).ok_or_else(|| {
+            Error::InvalidOperation("Cannot replace a node without parent".to_string())
+        })?;
+        self.add_structure_check(Some(parent), replacing_node)?;
+        if self
+            .ancestors(replacing_node)
+            .any(|ancestor| ancestor == replaced_node)
+        {
+            return Err(Error::InvalidOperation(
+                "Cannot replace a node with itself or one of its descendants".to_string(),
+            ));
+        }
         // record previous sibling
         let previous_node = self.previous_sibling(replaced_node);
         // remove the replaced node, use low-level remove_tree to avoid
